@@ -774,7 +774,8 @@ mod miette_adapter {
             let (offset, length) = match self.0.line_col {
                 LineColLocation::Pos((_, c)) => (c - 1, 1),
                 LineColLocation::Span((_, start_c), (_, end_c)) => {
-                    (start_c - 1, end_c - start_c + 1)
+                    // The end column of a multi-line span can be smaller than its start column.
+                    (start_c - 1, end_c.saturating_sub(start_c) + 1)
                 }
             };
 
